@@ -167,6 +167,13 @@ func C04tweak(p *load.Program, run *report.Run) {
 				return nil, "no static caller of " + fn.Name()
 			}
 			return out, errs
+		case *ssa.TypeAssert:
+			// an object taken out of a sync.Pool belongs to this activation until it is put back: what its
+			// fields hold was put there by this activation or validated by it (a cached key schedule that
+			// is compared with the key at hand), so it lives like a local created where the object was taken
+			if c, ok := t.X.(*ssa.Call); ok && c.Call.StaticCallee() != nil && c.Call.StaticCallee().String() == "(*sync.Pool).Get" {
+				return []origin{{kind: "local", fn: t.Parent(), blk: t.Block()}}, ""
+			}
 		}
 		return nil, fmt.Sprintf("unmodelled origin %T", v)
 	}
